@@ -1,4 +1,3 @@
 OPEN "a.txt" FOR OUTPUT AS #1
-OPEN "pre.txt" FOR RANDOM AS #2 LEN = 4
-FIELD #2, 4 AS F2$
+PRINT #1, "p" + CHR$(200) + "q"
 OPEN "a.txt" FOR APPEND AS #1
